@@ -154,7 +154,7 @@ def judge(chk, c, obs, dropped):
 
 def main(tier, seed, scale=1.0):
     chk = Check(PROP, tier, seed)
-    n = int((320 if tier == "quick" else 30000) * scale)
+    n = int((960 if tier == "quick" else 30000) * scale)
     cap = 20 if tier == "quick" else 36
     chk.rule = ("random struct/enum definitions with Hash educed (ignore/method in random spellings), half of them "
                 "with PartialEq educed under the same choices; every value hashed into a recording Hasher (twice, as "
